@@ -12,6 +12,9 @@ Definition upload_good (c : cfg) (k : kind) (sz : Z) (st : stream) : Prop :=
 
 Definition empty_shortcut (k : kind) (hash : string) (sz : Z) : Prop :=
   k = CAS /\ sz = 0 /\ hash = emptySha256.
+(* the empty blob is acknowledged without storing anything, provided no data came with it *)
+Definition empty_ok (k : kind) (hash : string) (sz : Z) (st : stream) : Prop :=
+  empty_shortcut k hash sz /\ st_len st <= 0.
 
 (* a backend object was validated before it is committed or served *)
 Definition fetch_good (c : cfg) (k : kind) (sz claimed : Z) (b : bget) : Prop :=
@@ -33,7 +36,7 @@ Definition ack_ok (c : cfg) (t : thread) : Prop :=
       | PutStart | Cleanup (PutErr _) | Done (PutErr _) => True
       | PutCreate | PutWrite | PutFinish => put_guards c hash sz
       | PutCommit _ | Cleanup PutOk => put_guards c hash sz /\ upload_good c k sz st
-      | Done PutOk => (put_guards c hash sz /\ upload_good c k sz st) \/ empty_shortcut k hash sz
+      | Done PutOk => (put_guards c hash sz /\ upload_good c k sz st) \/ empty_ok k hash sz st
       | _ => False
       end
   | RGet k hash sz off zstd b rnd =>
@@ -101,9 +104,10 @@ Proof.
       assert (HG : put_guards c hash sz).
       { unfold put_guards. apply negb_false_iff in G3. lia. }
       destruct (kind_eqb k CAS && (sz =? 0) && String.eqb hash emptySha256) eqn:G4.
-      { fin. intros _. right. unfold empty_shortcut.
-        apply andb_true_iff in G4 as [G4 G6]. apply andb_true_iff in G4 as [G4 G5].
-        repeat split; [destruct k; try discriminate; reflexivity|lia|apply String.eqb_eq; exact G6]. }
+      { apply andb_true_iff in G4 as [G4 G6]. apply andb_true_iff in G4 as [G4 G5].
+        destruct (st_len st >? 0) eqn:G7; [fin|].
+        fin. intros _. right. unfold empty_ok, empty_shortcut.
+        repeat split; [destruct k; try discriminate; reflexivity|lia|apply String.eqb_eq; exact G6|lia]. }
       break_step; fin.
     + break_step; fin.
     + break_step; fin.
@@ -173,7 +177,7 @@ Qed.
    delivered exactly the declared number of bytes, cleanly, with the declared hash (CAS) *)
 Lemma put_ok_sound c mx hd ls t k hash sz st rnd :
   In t (thr (srun c (sinit mx hd) ls)) -> t_req t = RPut k hash sz st rnd -> t_pc t = Done PutOk ->
-  (put_guards c hash sz /\ upload_good c k sz st) \/ empty_shortcut k hash sz.
+  (put_guards c hash sz /\ upload_good c k sz st) \/ empty_ok k hash sz st.
 Proof.
   intros Hin Hreq Hpc.
   assert (HF : Forall (ack_ok c) (thr (srun c (sinit mx hd) ls))) by (apply srun_ack; constructor).
@@ -183,7 +187,7 @@ Qed.
 (* the same for the sequential semantics *)
 Lemma exec_put_ok_sound c d k hash sz st rnd d' :
   exec c d (RPut k hash sz st rnd) = (d', Some PutOk) ->
-  (put_guards c hash sz /\ upload_good c k sz st) \/ empty_shortcut k hash sz.
+  (put_guards c hash sz /\ upload_good c k sz st) \/ empty_ok k hash sz st.
 Proof.
   unfold exec. destruct (run_thread c (fuel_for (RPut k hash sz st rnd)) d (spawn (RPut k hash sz st rnd))) as [d1 t1] eqn:E.
   intros H. inversion H; subst.
